@@ -547,14 +547,18 @@ fn write_olde_ecl(
         return Err(emitter.emit(error!("too many timelines! (max allowed in this game is {max_timelines})")));
     }
 
+    let (num_subs, num_timelines) = match (u16::try_from(ecl.subs.len()), u16::try_from(ecl.timelines.len())) {
+        (Ok(num_subs), Ok(num_timelines)) => (num_subs, num_timelines),
+        _ => return Err(emitter.emit(error!("too many subs or timelines! (max allowed is {})", u16::MAX))),
+    };
     match format.timeline_array_kind() {
         | TimelineArrayKind::Pofv { .. }
         | TimelineArrayKind::Pcb { .. } => {
-            w.write_u16(ecl.subs.len() as _)?;
-            w.write_u16(ecl.timelines.len() as _)?;
+            w.write_u16(num_subs)?;
+            w.write_u16(num_timelines)?;
         },
         | TimelineArrayKind::Eosd { .. } => {
-            w.write_u16(ecl.subs.len() as _)?;
+            w.write_u16(num_subs)?;
             w.write_u16(0)?;
         },
     };
